@@ -89,6 +89,8 @@ def exec_call(c: dict[str, Any]) -> str:
         return "\x00".join(md.convert(t) for t in c["texts"])
     if api == "wrap_paragraph":
         return flowmark.wrap_paragraph(c["text"], **kw)
+    if api == "sentences":
+        return "\x00".join(flowmark.split_sentences_regex(c["text"], **kw)) + "\x01" + flowmark.first_sentence(c["text"]) + "\x01" + "\x00".join(flowmark.wrap_paragraph_lines(c["text"], width=kw.get("min_length", 15) + 25))
     raise ValueError(api)
 
 
@@ -143,7 +145,7 @@ def pristine_outcome(c: dict[str, Any]) -> tuple[str, str]:
 # ---------------------------------------------------------------------------------------------
 # workload generation
 
-APIS = ["reformat_text"] * 8 + ["fill_markdown"] * 4 + ["fill_text"] * 2 + ["convert"] * 2 + ["reuse"] + ["wrap_paragraph"]
+APIS = ["reformat_text"] * 8 + ["fill_markdown"] * 4 + ["fill_text"] * 2 + ["convert"] * 2 + ["reuse"] + ["wrap_paragraph"] + ["sentences"]
 WRAPS = ["none", "wrap", "wrap_full", "wrap_indent", "indent_only", "hanging_indent", "markdown_item"]
 
 
@@ -185,7 +187,15 @@ def gen_call(rng: Any, text: str | None = None, base: dict[str, Any] | None = No
     if api == "reuse":
         a, b = corpus.gen_interference_pair(rng)
         return {"api": api, "texts": [a, b, text][: rng.randint(2, 3)], "kw": {"line_wrapper": _gen_wrapper(rng), "list_spacing": rng.choice(corpus.LIST_SPACINGS)}}
+    if api == "sentences":
+        # sentence helpers on a paragraph of a shared document (same text as the formatting calls see)
+        paras = [p for p in text.split("\n\n") if p.strip()]
+        return {"api": api, "text": rng.choice(paras) if paras else text, "kw": {"min_length": rng.choice([0, 15, 40])}}
     para = corpus.paragraph(rng, 1, 4, raw_breaks=False)
+    if rng.random() < 0.5:
+        paras = [p for p in text.split("\n\n") if p.strip() and "\n" not in p]
+        if paras:
+            para = rng.choice(paras)
     return {"api": "wrap_paragraph", "text": para, "kw": {"width": rng.choice([20, 40, 88]), "initial_indent": rng.choice(["", "- "]), "subsequent_indent": rng.choice(["", "  "]), "is_markdown": rng.random() < 0.5}}
 
 
@@ -195,7 +205,69 @@ def call_text_len(c: dict[str, Any]) -> int:
     return len(c["text"])
 
 
+def _probe_calls(w: Any, base: dict[str, Any], n: int) -> list[dict[str, Any]]:
+    out = []
+    for text in [corpus.PROBE_ALL] + w.sample(corpus.PROBE_DOCS, n - 1):
+        o = dict(base) if w.random() < 0.75 else corpus.gen_options(w, allow_plaintext=False)
+        o["plaintext"] = False
+        out.append({"api": "reformat_text", "text": text, "kw": o})
+    return out
+
+
+def gen_probe_case(run_seed: int, tier: str, shape: str) -> dict[str, Any]:
+    """
+    'abort_probe': a victim call aborted at a seeded point of its own execution, then a battery
+    of probe documents in the same simulated thread (and sometimes a second thread running probes
+    concurrently). 'history_probe': the same without the abort (pure history dependence).
+    """
+    w = sub_rng(run_seed, "workload")
+    base = corpus.gen_options(w, allow_plaintext=False)
+    if w.random() < 0.6:
+        base["width"] = w.choice([40, 88, 88])
+    kinds = ["plain", "plain", "random", "pair_a", "probe"]
+
+    def victim_text() -> str:
+        k = w.choice(kinds)
+        if k == "plain":
+            return corpus.gen_plain_doc(w)
+        if k == "random":
+            return corpus.gen_doc(w)
+        if k == "pair_a":
+            return corpus.gen_interference_pair(w)[0]
+        return w.choice(corpus.PROBE_DOCS)
+
+    threads: list[list[dict[str, Any]]] = []
+    faults: list[dict[str, Any]] = []
+    nthreads = w.choice([1, 1, 1, 2])
+    for t in range(nthreads):
+        calls: list[dict[str, Any]] = []
+        nv = w.choice([1, 1, 2])
+        for _ in range(nv):
+            vt = victim_text()
+            api = w.choice(["reformat_text", "reformat_text", "fill_markdown"])
+            o = dict(base)
+            if api == "fill_markdown":
+                del o["plaintext"]
+            calls.append({"api": api, "text": vt, "kw": o})
+            if shape == "abort_probe" and (t == 0 or w.random() < 0.5):
+                est = max(20, len(vt) * 5)
+                faults.append({"kind": "abort", "step": 0, "call": [0, t, len(calls) - 1], "local": w.randrange(1, est), **({"exc": "exception"} if w.random() < 0.3 else {})})
+        calls += _probe_calls(w, base, w.randint(2, 4))
+        threads.append(calls)
+    epochs = [{"threads": threads}]
+    if w.random() < 0.4:
+        # a later epoch on the same (pooled) threads: more probes
+        epochs.append({"threads": [_probe_calls(w, base, 2) for _ in range(nthreads)]})
+    est_steps = max(200, sum(call_text_len(c) for ep in epochs for th in ep["threads"] for c in th) * 5)
+    p = sub_rng(run_seed, "policy")
+    policy: dict[str, Any] = {"kind": "bernoulli", "seed": p.getrandbits(48), "p": p.choice([1 / 50, 1 / 500, 1 / 5000])} if nthreads > 1 else {"kind": "none"}
+    return {"check": CHECK, "run_seed": run_seed, "shape": shape, "epochs": epochs, "policy": policy, "faults": faults, "granularity": "call", "est_steps": est_steps, "step_cap": 0}
+
+
 def gen_case(run_seed: int, tier: str) -> dict[str, Any]:
+    shape = sub_rng(run_seed, "shape").choices(["mixed", "abort_probe", "history_probe"], [65, 20, 15])[0]
+    if shape != "mixed":
+        return gen_probe_case(run_seed, tier, shape)
     w = sub_rng(run_seed, "workload")
     n_epochs = w.choice([1, 1, 2, 2, 3, 4])
     epochs = []
@@ -260,13 +332,15 @@ def gen_case(run_seed: int, tier: str) -> dict[str, Any]:
 
     f = sub_rng(run_seed, "faults")
     faults: list[dict[str, Any]] = []
-    faulted = f.random() < 0.30
+    faulted = f.random() < 0.35
     if faulted:
-        kinds = [kd for kd in ("abort", "cache_clear", "gc") if f.random() < 0.6] or ["cache_clear"]
+        kinds = [kd for kd in ("abort", "cache_clear", "gc") if f.random() < (0.75 if kd == "abort" else 0.5)] or ["abort"]
         for kd in kinds:
             n = 1 if kd == "abort" and f.random() < 0.7 else f.randint(1, 3)
             for _ in range(n):
                 ft: dict[str, Any] = {"kind": kd, "step": f.randrange(1, est_steps)}
+                if kd == "abort" and f.random() < 0.35:
+                    ft["exc"] = "exception"  # an ordinary Exception instead of a BaseException
                 if kd == "cache_clear":
                     ft["mask"] = f.getrandbits(31) | 1
                 faults.append(ft)
@@ -358,8 +432,11 @@ def _resolve_targeted(env: Env, case: dict[str, Any], ep_index: int, threads: li
     import random
 
     rng = random.Random(seed + ep_index)
-    x = rng.randrange(len(threads))
-    others = [t for t in range(len(threads)) if t != x]
+    nonempty = [t for t in range(len(threads)) if threads[t]]
+    if len(nonempty) < 2:
+        return {"kind": "none"}
+    x = rng.choice(nonempty)
+    others = [t for t in nonempty if t != x]
     if not others:
         return {"kind": "none"}
     y = rng.choice(others)
@@ -445,7 +522,7 @@ def run_case(env: Env, case: dict[str, Any], want_trace: bool = False) -> dict[s
     def make_body(ep_i: int, calls: list[dict[str, Any]]) -> Any:
         def body(sc: sched.Scheduler, tid: int, tracer: Any) -> None:
             for ci, c in enumerate(calls):
-                sc.cur_call[tid] = ci
+                sc.begin_call(tid, ci)
                 start_step = sc.step
                 sys.settrace(tracer)
                 try:
@@ -453,7 +530,7 @@ def run_case(env: Env, case: dict[str, Any], want_trace: bool = False) -> dict[s
                         out: tuple[str, str] = ("ok", exec_call(c))
                     finally:
                         sys.settrace(None)
-                except sched.InjectedAbort:
+                except (sched.InjectedAbort, sched.InjectedError):
                     out = ("aborted", "")
                 except (sched.DeadlockAbort, sched.StepCap):
                     raise
@@ -470,18 +547,18 @@ def run_case(env: Env, case: dict[str, Any], want_trace: bool = False) -> dict[s
 
     dry_replay = case.get("dry") or {}
     dry_done: dict[str, int] = {}
-    for ep_i, ep in enumerate(case["epochs"]):
-        threads = ep["threads"]
-        if not threads:
-            s.epoch += 1  # emptied by the minimiser; keep epoch numbering
-            continue
+
+    def before_epoch(ep_i: int) -> None:
+        # controller, quiescent point between epochs
+        threads = case["epochs"][ep_i]["threads"]
+        live = [th for th in threads if th]
         if per_epoch is None and str(ep_i) in dry_replay and dry_replay[str(ep_i)] < len(threads):
             # replay of a targeted run with an explicit schedule: repeat the same solo dry run,
             # it is part of the history
             _dry_run(env, case, threads[dry_replay[str(ep_i)]])
             dry_done[str(ep_i)] = dry_replay[str(ep_i)]
         if per_epoch is not None:
-            if len(threads) > 1:
+            if len(live) > 1:
                 td = _resolve_targeted(env, case, ep_i, threads, pol_desc["seed"])
                 resolved_targets.append(td)
                 if "x" in td:
@@ -494,9 +571,8 @@ def run_case(env: Env, case: dict[str, Any], want_trace: bool = False) -> dict[s
                     per_epoch.cur = sched.Policy()
             else:
                 per_epoch.cur = sched.Policy()
-        s.run_epoch([make_body(ep_i, th) for th in threads])
-        if s.deadlock or s.cap_hit:
-            break
+
+    s.run_history([[make_body(ep_i, th) if th else None for th in ep["threads"]] for ep_i, ep in enumerate(case["epochs"])], before_epoch)
 
     # quiescent re-verification: every distinct call once more, sequentially, untraced, against
     # the process state this history has left behind
@@ -552,6 +628,7 @@ def run_case(env: Env, case: dict[str, Any], want_trace: bool = False) -> dict[s
             "victim_calls": len(s.aborted_calls),
             "granularity": {case["granularity"]: 1},
             "policy": {pol_desc["kind"]: 1},
+            "shape": {case.get("shape", "mixed"): 1},
             "faulted_runs": 1 if case["faults"] else 0,
             "faultfree_runs": 0 if case["faults"] else 1,
             "api": _count([c["api"] for c in case_calls(case)]),
